@@ -695,6 +695,7 @@ def execute(sim, scn):
         pairs = split_q(q)
         filters = [(k, v) for k, v in pairs if k not in ("page", "count")]
         sel = select(kind, filters, t)
+        absent[:] = []
         dead = [r for r in list(regs.values()) + graveyard if r.status(t) == "dead"]
         if kind == "ep":
             by_href = {}
@@ -732,6 +733,7 @@ def execute(sim, scn):
                                   query=q, registration=reg.describe(), listed=sorted(by_href))
             n_sure = sum(1 for _, st, _ in sel if st == "live")
             n_max = len(sel)
+            absent[:] = [reg for reg, st, _ in sel if st == "live" and reg.href not in by_href]
         else:
             got = multiset(obs_res_key(h, a) for h, a in entries)
             remaining = dict(got)
@@ -757,6 +759,8 @@ def execute(sim, scn):
                 elif partial:
                     # a page may hold some of a registration's links
                     remaining = ms_sub(remaining, want)
+                    if st == "live" and len(ms_list(missing)) == len(ents):
+                        absent.append(reg)
             if remaining:
                 extra = ms_list(remaining)[0]
                 unf = multiset(e[:3] for reg, st, ents in select(kind, [], t) for e in ents)
@@ -781,7 +785,14 @@ def execute(sim, scn):
             n_max = sum(len(ents) for _, _, ents in sel)
         return n_sure, n_max
 
-    def size_kind(pairs):
+    absent = []  # live registrations the last checked (partial) answer did not show at all
+
+    def size_kind(pairs, t, short):
+        if short:
+            for reg in absent:
+                k = classify(reg, False, t, None)
+                if k is not None:
+                    return k
         if any(k not in ("page", "count") for k, _ in pairs):
             return "C20/filtered-pagination-wrong-size"
         return "C20/pagination-wrong-size"
@@ -1047,7 +1058,8 @@ def execute(sim, scn):
                 sim.probe("lookup_paged")
                 lo, hi = page_window(n_sure, page, count), page_window(n_max, page, count)
                 if not (min(lo, hi) <= len(entries) <= max(lo, hi)):
-                    violation(size_kind(pairs), lookup=op["kind"], query=q, t=t, got=len(entries),
+                    violation(size_kind(pairs, t, len(entries) < min(lo, hi)), lookup=op["kind"], query=q, t=t,
+                              got=len(entries),
                               expected=[lo, hi], matching=[n_sure, n_max])
         else:
             sim.probe("lookup_rich")
@@ -1073,7 +1085,8 @@ def execute(sim, scn):
             n_sure, n_max = check_lookup(op["kind"], q, t, entries, partial=True)
             lo, hi = page_window(n_sure, p, count), page_window(n_max, p, count)
             if not (min(lo, hi) <= len(entries) <= max(lo, hi)):
-                violation(size_kind(split_q(q)), lookup=op["kind"], query=q, page=p, count=count, t=t,
+                violation(size_kind(split_q(q), t, len(entries) < min(lo, hi)), lookup=op["kind"], query=q, page=p,
+                          count=count, t=t,
                           got=len(entries), expected=[lo, hi])
             pages.append((t, entries))
             if not entries or p > n_max // count + 2:
@@ -1088,7 +1101,7 @@ def execute(sim, scn):
             allent = [e for _, es in pages for e in es]
             n_sure, _ = check_lookup(op["kind"], [subst(s) for s in op["q"]], t1, allent, partial=False)
             if len(allent) != n_sure:
-                violation(size_kind(split_q(op["q"])), lookup=op["kind"], query=op["q"], count=count, t=t1,
+                violation(size_kind(split_q(op["q"]), t1, len(allent) < n_sure), lookup=op["kind"], query=op["q"], count=count, t=t1,
                           got=len(allent), expected=[n_sure, n_sure], pages=len(pages))
 
     async def op_until(op):
